@@ -74,7 +74,7 @@ def transfer_trace(tid, rng):
     from mlinsights.mlmodel import TransferTransformer
     copy_flag, trainable = rng.random() < 0.5, rng.random() < 0.5
     Xp, yp = data(rng, rng.randint(3, 7), None, 500)
-    est = stubs.RecReg()
+    est = rng.choice([stubs.RecReg, stubs.WarmReg, stubs.WarmReg])()
     est.fit(Xp, yp)
     X, y = data(rng, rng.randint(3, 8))
     t = dict(id=tid, kind="transfer", stub="reg", method="predict", classes=[], nmembers=1, copy=copy_flag, trainable=trainable,
